@@ -3,3 +3,4 @@ import Model.Data
 import Model.Reply
 import Model.Proxy
 import Model.Envelope
+import Model.Policy
